@@ -452,7 +452,7 @@ def rule_A(ck, A="C03-A", N="C03-N"):
                 if mismatch:
                     saw_mismatch = True
                     calls = [e for e in x.effects if e[0] == "call" and not e[1].endswith("::len")]
-                    if calls or not (x.kind == "return" and x.value == ("ctor", ERR, (("ctor", witness.UNPARAM, ()),))):
+                    if calls or not (x.kind in ("return", "err") and x.value == ("ctor", ERR, (("ctor", witness.UNPARAM, ()),))):
                         probs.append("wrong parameter count does not simply return UnexpectedNumberOfParameters: %s" % pathsum.show_exit(x)[:200])
                     continue
                 # arity ok: conversions in order
